@@ -75,6 +75,22 @@ CHECKS["C10"] = dict(
     technique="TLA+ heap/closure model checked by TLC; TLC histories replayed on the real package; recorded calls validated by TLC "
               "against fresh-transformer answers; TLC-enumerated Geom.Transform cases validated against TransformSpec")
 
+CHECKS["C13"] = dict(
+    level="model_checking",
+    text="Simplify.tla transcribes simplifyCurve as a state machine (one action per loop iteration, the code's i/j/k/out and the "
+         "out[0:i] spare-capacity quirk, findIntersection and segMakesNotSimple in exact integer arithmetic); TLC checks termination "
+         "(liveness under weak fairness), bounded output, subsequence/endpoints/tolerance for every curve of the bounded lattice. "
+         "TLC-enumerated curves, rings and multi-line strings plus seeded random simple walks are run through the real Simplify in a "
+         "sandbox child (hang / runaway allocation become outcomes) and SimplifyTrace.tla validates each result against R1 "
+         "(termination, order-preserving subsequence, endpoints, exact rational distance <= tol, simplicity preserved, input "
+         "untouched, members independent). Non-simple outputs are downgraded to the known finding only when they equal, vertex for "
+         "vertex, the output of the documented algorithm (the R2 machine run to completion inside TLC).",
+    design_ref="DESIGN.md section 5, C13",
+    note="Trusted: TLC, the sandbox deadline (4 s, re-confirmed alone with 8 s). Integer lattice inputs <= 100; squared tolerances 0 or "
+         "= 3 mod 4 (no exact distance tie). Known finding C13-not-simple-documented-algorithm is suppressed by exact match with R2 only.",
+    technique="TLA+ transcription of the simplifier model-checked by TLC (safety + termination); TLC-enumerated and random cases run on "
+              "the code in a sandbox; results validated by TLC against the exact-rational oracle")
+
 NOT_YET = "check not built yet in this round of work; will be claimed when its specification, replay and trace validation exist"
 NA = {
     "C09": "oracle is proj4js 2.3.12 and closed-form geodesy (real-valued transcendental functions, a JavaScript program that "
